@@ -48,6 +48,18 @@ def _key_of(node):
 _NONE = object()
 
 
+def _normal(func):
+    """normal form: loops over a literal table of (key, value) pairs written out, aliases of the
+    group / its attrs expanded"""
+    from .normal import inline_temps, unroll_literal_loops
+    if getattr(func, '_hdf5_normal', False):
+        return func
+    nf = inline_temps(unroll_literal_loops(func), aliases_only=True)
+    nf._hdf5_normal = True
+    nf._hdf5_orig = getattr(func, '_hdf5_orig', func)
+    return nf
+
+
 class Extractor:
     """mode 'save' or 'load'. `resolve_super(func)` returns the parent implementation or None."""
 
@@ -59,6 +71,7 @@ class Extractor:
         if depth > 6:
             raise AnalysisError('hdf5 key extraction: super() chain too deep at %s' % func.name)
         self.depth = depth
+        func = _normal(func)
         a = func.args.args
         names = [x.arg for x in a]
         # (self|cls, hdf5_saver|hdf5_loader, h5gr, subpath)
@@ -86,6 +99,7 @@ class Extractor:
         return cur
 
     def run(self, func, depth=0):
+        func = _normal(func)
         a = func.args.args
         names = [x.arg for x in a]
         self.io = names[1] if len(names) > 1 else 'hdf5_saver'
@@ -162,7 +176,7 @@ class Extractor:
             if isinstance(c, ast.Call) and isinstance(c.func, ast.Attribute) and \
                     c.func.attr == meth and isinstance(c.func.value, ast.Call) and \
                     dotted(c.func.value.func) == 'super':
-                parent = self.resolve_super(func)
+                parent = self.resolve_super(getattr(func, '_hdf5_orig', func))
                 if parent is None:
                     raise AnalysisError('hdf5 key extraction: cannot resolve super().%s in %s' %
                                         (meth, getattr(func, '_qualname', func.name)))
